@@ -85,7 +85,7 @@ class SRun:
         asyncio.events._set_running_loop(self.loop)
         try:
             # a root value given to subscribe() is not the root of the per-event executions: each event is
-            r = subscribe(gqlmini.schema(), doc, gqlmini.to_py(opts["root_value"]) if opts.get("root_value") else None, variable_values=gqlmini.render_vars(case),
+            r = subscribe(gqlmini.schema_with_stream(), doc, gqlmini.to_py(opts["root_value"]) if opts.get("root_value") else None, variable_values=gqlmini.render_vars(case),
                           field_resolver=gqlmini.make_resolver(calls, self.wrap), type_resolver=gqlmini.make_type_resolver(self.wrap),
                           subscribe_field_resolver=sub_resolver)
         finally:
@@ -207,7 +207,7 @@ def _chunk(jobs):
         case = gqlmini.gen_subscription_case(sd)
         text = gqlmini.render_doc(case, "subscription")
         try:
-            if validate(gqlmini.schema(), parse(text)):
+            if validate(gqlmini.schema_with_stream(), parse(text)):
                 out.append({"invalid": True})
                 continue
         except Exception as e:  # noqa: BLE001
